@@ -1,6 +1,7 @@
 package main
 
 import (
+	"go/constant"
 	"fmt"
 	"go/ast"
 	"go/token"
@@ -424,6 +425,107 @@ func ruleW10(c *Ctx) {
 	c.check(n >= 1, "W10", "instances", fn.Pos(), fmt.Sprintf("%d parameter-walk call(s)", n))
 }
 
+// W11: every character of the rendering comes from the hexadecimal table or is a literal. Each argument of
+// WriteByte in MsgSig.String is a constant (the section letters, the error marker) or an element of the constant
+// 16-character table "0123456789abcdef"; arithmetic on '0' is not a hex digit for values 10..15.
+func ruleW11(c *Ctx) {
+	fn := c.SFuncs["MsgSig.String"]
+	if fn == nil {
+		c.fail("W11", "MsgSig.String", token.NoPos, "not found")
+		return
+	}
+	n := 0
+	for _, b := range fn.Blocks {
+		for _, ins := range b.Instrs {
+			call, ok := ins.(*ssa.Call)
+			if !ok {
+				continue
+			}
+			cal := call.Call.StaticCallee()
+			if cal == nil || cal.Name() != "WriteByte" || len(call.Call.Args) != 2 {
+				continue
+			}
+			n++
+			a := call.Call.Args[1]
+			good, why := false, "computed character"
+			switch x := a.(type) {
+			case *ssa.Const:
+				good, why = true, "literal"
+			case *ssa.Lookup:
+				if k, ok := x.X.(*ssa.Const); ok && k.Value != nil && k.Value.Kind() == constant.String && constant.StringVal(k.Value) == "0123456789abcdef" {
+					good, why = true, "hex table element"
+				}
+			case *ssa.Index:
+				if k, ok := x.X.(*ssa.Const); ok && k.Value != nil && k.Value.Kind() == constant.String && constant.StringVal(k.Value) == "0123456789abcdef" {
+					good, why = true, "hex table element"
+				}
+			}
+			if !good {
+				why += fmt.Sprintf(" %T", a)
+				if lk, ok := a.(*ssa.Lookup); ok {
+					why += fmt.Sprintf(" X=%T", lk.X)
+				}
+			}
+			c.check(good, "W11", fmt.Sprintf("MsgSig.String:char#%d", n), call.Pos(), "the character written is a literal or an element of the 16-character hex table ("+why+")")
+		}
+	}
+	c.check(n >= 10, "W11", "characters", fn.Pos(), fmt.Sprintf("%d WriteByte calls in MsgSig.String (frozen minimum 10)", n))
+}
+
+// W12: the first Via is looked at before anything can end the scan. Inside the first-occurrence block of GetMsgSig
+// (after seen.Set) the test for the Via type, under which the branch part is taken, dominates every return of that
+// block: otherwise the "all interesting headers seen" / "signature full" exits skip the branch of a Via that happens
+// to be the last fingerprinted header, and inserting an unrelated header in front of it changes the signature.
+func ruleW12(c *Ctx) {
+	fn := c.SFuncs["GetMsgSig"]
+	if fn == nil {
+		c.fail("W12", "GetMsgSig", token.NoPos, "not found")
+		return
+	}
+	via, okV := c.namedConstInt("HdrVia")
+	var setB, viaB *ssa.BasicBlock
+	for _, b := range fn.Blocks {
+		for _, ins := range b.Instrs {
+			if call, ok := ins.(*ssa.Call); ok {
+				if cal := call.Call.StaticCallee(); cal != nil && ssaKey(cal) == "HdrFlags.Set" && setB == nil {
+					setB = b
+				}
+			}
+		}
+		if iff, ok := b.Instrs[len(b.Instrs)-1].(*ssa.If); ok {
+			if bo, ok := iff.Cond.(*ssa.BinOp); ok && (bo.Op == token.EQL || bo.Op == token.NEQ) {
+				k, isK := constIntOf(bo.Y)
+				if isK && okV && k == via && viaB == nil {
+					// it must guard the branch extraction
+					for _, su := range b.Succs {
+						for _, in2 := range su.Instrs {
+							if call, ok := in2.(*ssa.Call); ok {
+								if cal := call.Call.StaticCallee(); cal != nil && cal.Name() == "GetViaBrSig" {
+									viaB = b
+								}
+							}
+						}
+					}
+				}
+			}
+		}
+	}
+	if setB == nil || viaB == nil {
+		c.fail("W12", "GetMsgSig:anchors", fn.Pos(), "first-occurrence marker (seen.Set) or the Via test guarding GetViaBrSig not found")
+		return
+	}
+	n := 0
+	for _, b := range fn.Blocks {
+		r, ok := b.Instrs[len(b.Instrs)-1].(*ssa.Return)
+		if !ok || !setB.Dominates(b) {
+			continue
+		}
+		n++
+		c.check(setB.Dominates(viaB) && viaB.Dominates(b), "W12", fmt.Sprintf("GetMsgSig:return-after-first-occurrence#%d", n), r.Pos(), "this return inside the first-occurrence block is dominated by the Via test that takes the branch part")
+	}
+	c.check(n >= 2, "W12", "returns", fn.Pos(), fmt.Sprintf("%d returns inside the first-occurrence block (frozen minimum 2)", n))
+}
+
 func init() {
 	register(&PropDef{
 		ID: "C19",
@@ -436,6 +538,8 @@ func init() {
 			{"W7", "array-size independence at the source: ParseHeaders stores a header in the caller's array exactly when N < len(Hdrs) (C13-K4), so a message whose header count equals the capacity is fingerprinted from all of its headers", ruleW7},
 			{"W9", "the method fits its digit: the bound MsgSig.String tests before rendering the method as one hexadecimal character (read from the comparison on SSA) exceeds every declared constant of the method type, so no reported method renders as the error marker plus a wrong digit", ruleW9},
 			{"W10", "the branch part comes from the first Via value: every offset GetViaBrSig hands to ParseTokenParam is the position after the first ';' (bytes.IndexByte of that byte on the parameter) or the previous call's continuation offset, and the buffer is the Via value itself — the walk is stopped by the comma terminator and never jumps into a later Via value", ruleW10},
+			{"W11", "every character of the text rendering is a literal or an element of the constant 16-character hexadecimal table (each WriteByte argument in MsgSig.String), so values 10..15 render as a..f", ruleW11},
+			{"W12", "the first Via is looked at before anything can end the scan: inside the first-occurrence block of GetMsgSig the Via test that takes the branch part dominates every return of that block, so the branch part does not depend on which other headers precede the Via", ruleW12},
 			{"W6", "Via branch extraction: flag set, branch name test, magic prefix; its index/slice expressions are guarded", ruleW6},
 		},
 		Assumptions: []string{"MsgSig.HdrSigLen is only produced by GetMsgSig"},
